@@ -28,7 +28,7 @@ func ruleRestrictionListFullyVisited(c *Ctx) {
 		if !ok {
 			return true
 		}
-		// loops over the restriction item list or over the sub-directory list
+
 		src := ""
 		if cx, ok := unparen(rs.X).(*ast.CallExpr); ok {
 			src = CalleeName(info, cx)
@@ -41,6 +41,7 @@ func ruleRestrictionListFullyVisited(c *Ctx) {
 				}
 				return true
 			})
+
 		}
 		if !strings.Contains(src, "getItemList") && !strings.Contains(src, "GetListOfSubDirs") {
 			return true
@@ -78,7 +79,7 @@ func ruleRestrictionListFullyVisited(c *Ctx) {
 					}
 				case *ast.SwitchStmt, *ast.SelectStmt, *ast.TypeSwitchStmt:
 					if y != k {
-						// break inside leaves only the switch
+
 						visit(switchBody(y), loopDepth+1)
 						return false
 					}
@@ -96,6 +97,7 @@ func ruleRestrictionListFullyVisited(c *Ctx) {
 		}
 		return true
 	})
+
 	c.Floor(rule, fn.Key, "restriction/sub-directory walks", n, 2)
 }
 
@@ -127,7 +129,7 @@ func ruleExtremumSeed(c *Ctx) {
 		// (a) seeded from the input on first use: an assignment field = <non-constant> guarded by a
 		// negated boolean field of the accumulator
 		seeded := false
-		walkAll(accum.Body, func(m ast.Node) bool {
+		accum.walk(func(m ast.Node) bool {
 			is, ok := m.(*ast.IfStmt)
 			if !ok {
 				return true
@@ -145,6 +147,7 @@ func ruleExtremumSeed(c *Ctx) {
 			}
 			return true
 		})
+
 		// (b) every constant the field is initialised with anywhere in the package
 		bad := ""
 		nconst := 0
@@ -187,6 +190,7 @@ func ruleExtremumSeed(c *Ctx) {
 				}
 				return true
 			})
+
 		}
 		what := map[bool]string{true: "maximum", false: "minimum"}[sp.isMax]
 		bound := map[bool]string{true: "≤ -MaxFloat32 (or -Inf)", false: "≥ MaxFloat32 (or +Inf)"}[sp.isMax]
@@ -272,7 +276,7 @@ func ruleSchemaEncodingLossless(c *Ctx) {
 	}
 	// any string/byte re-slicing or trimming inside the encoder is a lossy step
 	var lossyAt ast.Node
-	walkAll(s.Body, func(m ast.Node) bool {
+	s.walk(func(m ast.Node) bool {
 		switch x := m.(type) {
 		case *ast.SliceExpr:
 			if t := s.Info.TypeOf(x.X); t != nil {
@@ -288,6 +292,7 @@ func ruleSchemaEncodingLossless(c *Ctx) {
 		}
 		return lossyAt == nil
 	})
+
 	// the string operand handed to Serialize is the Name field (directly or a var defined as exactly it)
 	nameOK := false
 	for _, site := range s.sites(callPred(s, "utils/io.Serialize")) {
@@ -300,7 +305,7 @@ func ruleSchemaEncodingLossless(c *Ctx) {
 				nameOK = true
 			} else if o := identObj(s.Info, call.Args[1]); o != nil {
 				defs, exact := 0, 0
-				walkAll(s.Body, func(m ast.Node) bool {
+				s.walk(func(m ast.Node) bool {
 					if as, ok := m.(*ast.AssignStmt); ok {
 						for i, l := range as.Lhs {
 							if identObj(s.Info, l) == o && i < len(as.Rhs) {
@@ -313,6 +318,7 @@ func ruleSchemaEncodingLossless(c *Ctx) {
 					}
 					return true
 				})
+
 				nameOK = defs > 0 && defs == exact
 			}
 		}
@@ -356,7 +362,7 @@ func ruleReplicaYearFromOwnPath(c *Ctx) {
 		})
 		if yearObj != nil {
 			defs, good := 0, 0
-			walkAll(s.Body, func(m ast.Node) bool {
+			s.walk(func(m ast.Node) bool {
 				as, isAs := m.(*ast.AssignStmt)
 				if !isAs {
 					return true
@@ -376,6 +382,7 @@ func ruleReplicaYearFromOwnPath(c *Ctx) {
 				}
 				return true
 			})
+
 			ok = defs > 0 && defs == good
 		}
 		c.Check(ok, rule, s.Name, "year-from-own-file-path", c.P.Pos(call.Pos()),
@@ -417,7 +424,7 @@ func (s *Scope) seriesCoversWindow(e ast.Expr, pos token.Pos, depth int) (bool, 
 		// the LAST definition textually before the use inside the same innermost block chain
 		var last ast.Expr
 		var lastPos token.Pos
-		walkAll(s.Body, func(m ast.Node) bool {
+		s.walk(func(m ast.Node) bool {
 			as, ok := m.(*ast.AssignStmt)
 			if !ok || as.Pos() >= pos {
 				return true
@@ -434,8 +441,9 @@ func (s *Scope) seriesCoversWindow(e ast.Expr, pos token.Pos, depth int) (bool, 
 			}
 			return true
 		})
+
 		// `if cs := (*csm)[*tbk]; cs != nil` style definitions
-		walkAll(s.Body, func(m ast.Node) bool {
+		s.walk(func(m ast.Node) bool {
 			is, ok := m.(*ast.IfStmt)
 			if !ok || is.Init == nil || is.Pos() >= pos || is.End() < pos {
 				return true
@@ -450,6 +458,7 @@ func (s *Scope) seriesCoversWindow(e ast.Expr, pos token.Pos, depth int) (bool, 
 			}
 			return true
 		})
+
 		if last == nil {
 			return false, "no definition of " + x.Name + " before the call"
 		}
